@@ -259,6 +259,20 @@ def _check(ctx: Ctx) -> None:
             if name == "transpose" and attr_chain(recv) == ["self", "sequence"] and len(n.value.args) == 1 \
                     and isinstance(n.value.args[0], ast.Name) and n.value.args[0].id == iparam:
                 deleg_ok = True
+    if key_ok:
+        from ..astutil import path_conditions
+        ks = next(n for n in walk_local(bt.node) if isinstance(n, ast.Assign) and any(attr_chain(t) == ["self", "key_signature"] for t in n.targets))
+        pcs = path_conditions(ks)
+        okp = all(holds is (isinstance(t.ops[0], (ast.IsNot, ast.NotEq))) and isinstance(t, ast.Compare) and attr_chain(t.left) == ["self", "key_signature"]
+                  and isinstance(t.comparators[0], ast.Constant) and t.comparators[0].value is None for t, holds in pcs if isinstance(t, ast.Compare)) \
+            and all(isinstance(t, ast.Compare) for t, _ in pcs) and len(pcs) <= 1
+        ctx.check(okp, "DELEG", "Bar.transpose transposes its key whenever the bar has one", function=bt.qualname,
+                  construct="Bar.transpose updates the bar's key under a condition other than `the bar has a key`",
+                  message=f"{[(short(t, 50), h) for t, h in pcs]}: a bar that has a key keeps it while its notes (and the key events in its sequence) move",
+                  file=bt.file, node=ks)
+        rets_ = [n for n in walk_local(bt.node) if isinstance(n, ast.Return)]
+        ctx.check(len(rets_) == 1 and not path_conditions(rets_[0]), "DELEG", "Bar.transpose always transposes its sequence", function=bt.qualname,
+                  construct="Bar.transpose does not transpose its sequence on every path", message=f"{len(rets_)} return statement(s)", file=bt.file, node=bt.node)
     ctx.check(key_ok, "DELEG", "Bar.transpose transposes its key by the same interval", function=bt.qualname,
               construct="Bar.transpose does not update the bar's key with the interval", message="", file=bt.file, node=bt.node)
     ctx.check(deleg_ok, "DELEG", "Bar.transpose delegates to its sequence with the same interval", function=bt.qualname,
